@@ -7,3 +7,4 @@ pub mod refmodel;
 pub mod runner;
 pub mod keymodel;
 pub mod fuzzglue;
+pub mod fuzzdecode;
